@@ -196,6 +196,10 @@ func corpus(w *lib.Writer, pl *pool) {
 		{Fn: "big", Kind: 1, N: 5000000, Src: "corpus"}, // was: fatal stack overflow in parsePattern (fixed)
 		{Fn: "big", Kind: 1, N: 33, Src: "corpus"},
 		{Fn: "big", Kind: 1, N: 3, Src: "corpus"},
+		{Fn: "big", Kind: 2, N: 5000000, Src: "corpus"}, // was: fatal stack overflow in flagScanner.Next (fixed by 5c980d1)
+		{Fn: "big", Kind: 2, N: 3, Src: "corpus"},
+		{Fn: "big", Kind: 3, N: 2000000, Src: "corpus"},
+		{Fn: "big", Kind: 3, N: 0, Src: "corpus"},
 		{Fn: "big", Kind: 0, N: 999997, Src: "corpus"},  // largest subject "a*" still matches
 		{Fn: "big", Kind: 0, N: 999998, Src: "corpus"},  // C14-11 (open): pattern/input too complex
 		{Fn: "big", Kind: 0, N: 1100000, Src: "corpus"}, // C14-11
@@ -487,6 +491,10 @@ func mutate(r *lib.Rand, p string) string {
 func randomRepl(r *lib.Rand, ncap int) replIn {
 	pieces := []string{"x", "<", ">", " ", "%0", "%1", "%%", "ab", "%2", "1"}
 	n := r.Range(0, 4)
+	if r.Chance(8) {
+		n = r.Range(20, 60) // long runs (mostly %% and %0..%9)
+		pieces = []string{"%%", "%%", "%0", "%1", "x"}
+	}
 	s := ""
 	for i := 0; i < n; i++ {
 		if r.Chance(5) {
